@@ -133,6 +133,7 @@ type Spec struct {
 	CritTSEKU  bool // critical extended key usage "timestamping" (RFC 3161 TSA leaf)
 	NoKeyUsage bool
 	KeyUsage   x509.KeyUsage // if non-zero, replaces the default key usage
+	Serial     *big.Int      // if non-nil, the serial number (default: a fresh one)
 	Key        crypto.Signer
 	CRLSign    bool
 }
@@ -142,13 +143,20 @@ var (
 	oidTS  = asn1.ObjectIdentifier{1, 3, 6, 1, 5, 5, 7, 3, 8}
 )
 
+func serialOr(s *big.Int) *big.Int {
+	if s != nil {
+		return s
+	}
+	return NextSerial()
+}
+
 // Mint creates a certificate signed by parent (self-signed when parent is nil).
 func Mint(spec Spec, parent *Cert) *Cert {
 	if spec.Key == nil {
 		spec.Key = NewECKey(elliptic.P256())
 	}
 	tmpl := &x509.Certificate{
-		SerialNumber:          NextSerial(),
+		SerialNumber:          serialOr(spec.Serial),
 		Subject:               spec.Subject,
 		NotBefore:             spec.NotBefore,
 		NotAfter:              spec.NotAfter,
@@ -236,6 +244,9 @@ type ChainOpts struct {
 	Windows map[int][2]time.Time
 	// RawSubjects overrides the subject of CA positions (index into leaf-first chain)
 	RawSubjects map[int]pkix.RDNSequence
+	// SerialsOf: use the serial numbers of this chain's certificates, position by position (with the same
+	// Name this gives a "re-issued" chain: same names, same serial numbers, other keys)
+	SerialsOf *Chain
 }
 
 // DefaultLeafSubject satisfies the identity rules (C, ST, O present).
@@ -263,14 +274,20 @@ func NewChain(o ChainOpts) *Chain {
 		}
 		return o.NotBefore, o.NotAfter
 	}
+	serial := func(pos int) *big.Int {
+		if o.SerialsOf != nil && pos < len(o.SerialsOf.Certs) {
+			return o.SerialsOf.Certs[pos].Cert.SerialNumber
+		}
+		return nil
+	}
 	certs := make([]*Cert, n)
 	nb, na := win(n - 1)
 	certs[n-1] = Mint(Spec{Subject: pkix.Name{CommonName: o.Name + " root", Organization: []string{"verif ca"}, Country: []string{"US"}, Province: []string{"WA"}},
-		RawSubject: o.RawSubjects[n-1], NotBefore: nb, NotAfter: na, IsCA: true, PathLen: o.Intermediates, CRLSign: true}, nil)
+		RawSubject: o.RawSubjects[n-1], NotBefore: nb, NotAfter: na, IsCA: true, PathLen: o.Intermediates, CRLSign: true, Serial: serial(n - 1)}, nil)
 	for i := n - 2; i >= 1; i-- {
 		nb, na = win(i)
 		certs[i] = Mint(Spec{Subject: pkix.Name{CommonName: fmt.Sprintf("%s inter %d", o.Name, i), Organization: []string{"verif ca"}, Country: []string{"US"}, Province: []string{"WA"}},
-			RawSubject: o.RawSubjects[i], NotBefore: nb, NotAfter: na, IsCA: true, PathLen: i - 1, CRLSign: true}, certs[i+1])
+			RawSubject: o.RawSubjects[i], NotBefore: nb, NotAfter: na, IsCA: true, PathLen: i - 1, CRLSign: true, Serial: serial(i)}, certs[i+1])
 	}
 	nb, na = win(0)
 	subj := o.LeafSubject
@@ -278,7 +295,7 @@ func NewChain(o ChainOpts) *Chain {
 		subj = DefaultLeafSubject(o.Name + " leaf")
 	}
 	certs[0] = Mint(Spec{Subject: subj, RawSubject: o.LeafRaw, NotBefore: nb, NotAfter: na,
-		EKU: []x509.ExtKeyUsage{x509.ExtKeyUsageCodeSigning}, Key: o.LeafKey}, certs[1])
+		EKU: []x509.ExtKeyUsage{x509.ExtKeyUsageCodeSigning}, Key: o.LeafKey, Serial: serial(0)}, certs[1])
 	return &Chain{Certs: certs}
 }
 
